@@ -120,14 +120,17 @@ class World:
         self.pp = PrettyPrinter()
         self.ppj = PrettyPrinter(fmt_json=True)
 
-    def render(self, kind: int, conf, no_color: bool, via_global: bool, twin=None):
-        """-> (text consumed whole, text consumed line by line)"""
+    def render(self, kind: int, conf, no_color: bool, via_global: bool, twin=None, ambient=None):
+        """-> (text consumed whole, text consumed line by line).  `ambient`: the global configuration in force while a
+        rendering with an explicit colors_conf is requested (the explicit configuration must win)"""
         import ak.color as C
         kw: Dict[str, Any] = {"no_color": no_color}
         if via_global:
             C.set_global_colors_config(conf)
         else:
             kw["colors_conf"] = conf
+            if ambient is not None:
+                C.set_global_colors_config(ambient)
         try:
             if kind == 0:
                 r = self.table.ch_text(**kw)
@@ -148,7 +151,7 @@ class World:
                 return c2.make_report(), "\n".join(c2.gen_report_lines())
             raise ValueError(kind)
         finally:
-            if via_global:
+            if via_global or ambient is not None:
                 C.set_global_colors_config(None)
 
 
@@ -168,7 +171,8 @@ def _run_history(steps, c1: int, c2: int, adversarial_id: bool) -> None:
         for (kind, ci, no_color, via_global) in steps:
             conf = _mk_conf(ci, c1, c2)
             twin = _mk_conf(ci, c1, c2, no_color=True)
-            whole, by_line = world.render(kind, conf, no_color, via_global, twin)
+            ambient = None if via_global else _mk_conf((ci + 1) % 3, c1, c2)      # a different global configuration is in force
+            whole, by_line = world.render(kind, conf, no_color, via_global, twin, ambient)
             what = f"history {log + [(kind, ci, no_color, via_global)]} (codes {c1}, {c2})"
             log.append((kind, ci, no_color, via_global))
             # (3) whole == line by line
@@ -177,9 +181,15 @@ def _run_history(steps, c1: int, c2: int, adversarial_id: bool) -> None:
             # (2) no memory: same request on freshly constructed equivalent objects
             fresh_world = World()
             fresh_conf = _mk_conf(ci, c1, c2)
-            fresh, _ = fresh_world.render(kind, fresh_conf, no_color, via_global, _mk_conf(ci, c1, c2, no_color=True))
+            fresh, _ = fresh_world.render(kind, fresh_conf, no_color, via_global, _mk_conf(ci, c1, c2, no_color=True), None if via_global else _mk_conf((ci + 1) % 3, c1, c2))
             if fresh != whole:
                 raise Violation(f"memory :: {what}: output differs from the same request made with freshly constructed objects and configuration")
+            # the configuration in force decides, not the route by which it is supplied (explicit colors_conf vs global configuration)
+            other, _ = World().render(kind, _mk_conf(ci, c1, c2), no_color, not via_global, _mk_conf(ci, c1, c2, no_color=True),
+                                      None if not via_global else _mk_conf((ci + 2) % 3, c1, c2))
+            if other != whole:
+                raise Violation(f"route-dependent :: {what}: the same configuration supplied {'explicitly' if via_global else 'as global configuration'} renders differently "
+                                f"(rendering depends on something else than the configuration in force)")
             # (1) colors never change layout
             plain, _ = World().render(kind, _mk_conf(ci, c1, c2), True, via_global, _mk_conf(ci, c1, c2, no_color=True))
             if "\033" in plain:
